@@ -104,6 +104,29 @@ StrOK(r) ==
          LET W == {k \in 1..Len(r.ops) : PyIndex(r.n, r.ops[k].i) = i}
          IN  r.final[i + 1] = (IF W = {} THEN "" ELSE r.ops[CHOOSE k \in W : \A j \in W : j <= k].v)
 
+\* sequences of stores into one string array, contents read back after every operation: each store writes exactly the
+\* positions the same statement selects on a Python list (the string tables of source and destination never matter);
+\* a store whose source has the wrong length raises and changes nothing
+PosOf(x, sq) == CHOOSE q \in 1..Len(sq) : sq[q] = x
+StrStep(cur, op) ==
+    LET n == Len(cur) IN
+    CASE op.k = "set" -> [ok |-> TRUE, v |-> [i \in 1..n |-> IF i - 1 = PyIndex(n, op.i) THEN op.v ELSE cur[i]]]
+      [] op.k = "slice" -> LET pos == SliceDef(n, op.key) IN [ok |-> TRUE, v |-> [i \in 1..n |-> IF InSeq(i - 1, pos) THEN op.v ELSE cur[i]]]
+      [] op.k = "slicevec" -> LET pos == SliceDef(n, op.key) IN
+                              IF Len(pos) # Len(op.src) THEN [ok |-> FALSE, v |-> cur]
+                              ELSE [ok |-> TRUE, v |-> [i \in 1..n |-> IF InSeq(i - 1, pos) THEN op.src[PosOf(i - 1, pos)] ELSE cur[i]]]
+      [] op.k = "mask" -> [ok |-> TRUE, v |-> [i \in 1..n |-> IF op.m[i] # 0 THEN op.v ELSE cur[i]]]
+      [] op.k = "maskvec" -> LET sel == SelIdx(op.m) IN
+                             IF Len(op.src) = n THEN [ok |-> TRUE, v |-> [i \in 1..n |-> IF op.m[i] # 0 THEN op.src[i] ELSE cur[i]]]
+                             ELSE IF Len(op.src) = Len(sel) THEN [ok |-> TRUE, v |-> [i \in 1..n |-> IF op.m[i] # 0 THEN op.src[PosOf(i - 1, sel)] ELSE cur[i]]]
+                             ELSE [ok |-> FALSE, v |-> cur]
+StrSeqOK(r) ==
+    /\ r.len = r.n /\ Len(r.states) = Len(r.ops) + 1
+    /\ \A k \in 1..Len(r.ops) :
+         LET st == StrStep(r.states[k], r.ops[k]) IN
+         /\ (r.ops[k].exc = 1) = ~st.ok
+         /\ r.states[k + 1] = st.v
+
 \* FixedVArray: a Python list of lists.  Row i of the array built from sizes s is  [V2(i, j) : j < s[i]].
 VRow(i, m) == [j \in 1..m |-> V2(i, j - 1)]
 VFull(sizes) == [i \in 1..Len(sizes) |-> VRow(i - 1, sizes[i])]
